@@ -64,7 +64,24 @@ class FunTerm:
             if isinstance(st, ast.FunctionDef):
                 self.inline_funcs.setdefault(st.name, st)
         r = self.block(body)
+        if self._poisoned:
+            return OPQ(self._poisoned)
         return r if r is not None else OPQ("no return value")
+
+    _poisoned = None
+
+    def first_match(self, st: ast.For):
+        """Search idiom `for x in D: if c(x): return f(x)` (outside other loops) -> ('first', f, D, c, level)."""
+        if self.frames or st.orelse or len(st.body) != 1 or not isinstance(st.body[0], ast.If):
+            return None
+        iff = st.body[0]
+        if iff.orelse or len(iff.body) != 1 or not isinstance(iff.body[0], ast.Return) or iff.body[0].value is None:
+            return None
+        tr0 = self.translator()
+        level = self.fresh_level()
+        dom, elem, level = tr0.domain_elem(st.iter, level)
+        inner = tr0.child(tr0.bind(st.target, level, elem))
+        return tm.atom_poly(("first", inner.tr(iff.body[0].value), dom, inner.tr(iff.test), level))
 
     def final_env(self) -> Dict[str, tuple]:
         return self.env
@@ -143,9 +160,14 @@ class FunTerm:
             elif isinstance(st, ast.Return):
                 if self.frames:
                     self.opaque_all(f"return inside loop")
+                    self._poisoned = "return inside a loop"
                     return OPQ("return inside a loop")
                 return self.tr(st.value) if st.value is not None else tm.atom_poly(("none",))
             elif isinstance(st, ast.For):
+                fm = self.first_match(st)
+                if fm is not None:
+                    r_rest = self.block(rest)
+                    return tm.atom_poly(("firstor", fm, r_rest if r_rest is not None else tm.atom_poly(("none",))))
                 self.for_loop(st)
             elif isinstance(st, ast.While):
                 self.opaque_assigned(st, "while loop")
@@ -534,7 +556,7 @@ class FunTerm:
             if base is not None and not old and len(payload[1]) == 1:
                 kind, key, val, ctx = payload[1][0]
                 if len(ctx) == 1 and not ctx[0][2] and isinstance(ctx[0][0], tuple) and ctx[0][0][0] == "range" and ctx[0][0][1] == tm.ZERO \
-                        and ctx[0][0][2] == tm.atom_poly(("call", "len", (tm.norm_iter(base),))) and key == tm.sym(f"#{ctx[0][1]}"):
+                        and ctx[0][0][2] == tm.length_of(base) and key == tm.sym(f"#{ctx[0][1]}"):
                     cur_el = tm.subscript(base, key)
                     new_el = {"scale": tm.mul(cur_el, val), "inc": tm.add(cur_el, val), "set": val}.get(kind)
                     if new_el is not None:
